@@ -15,7 +15,10 @@
  *   W K S cond_wait entered / woke up / cond_signal        P poll   N skipped operation
  *   +<r><k> request r of kind k (c/f/s) submitted   w<r> work function of r ran   d<r>,<status> completion callback
  *   c<r>,<code> uv_cancel returned   a<0|1> uv_run returned / goes on polling (loop alive)
+ *   T uv_stop called
  *   !<what> a check of the harness itself failed (thread identity, order, uv_loop_alive)
+ *   !spin  the thread consumed more than a second of CPU without reaching a blocking point (the
+ *          record of the case ends there with v3)
  * Case (one per line, each run in a forked child because the pool is process-global):
  *   <nthreads> ; <script loop 0> | <script loop 1> ; <r>:<ops> ... ; t,a t,a ...
  * see ocaml/drv_c08.ml.  Ends with v0 (all loops returned), v1 (somebody runnable), v2 (deadlock). */
@@ -32,6 +35,7 @@
 #include <sys/epoll.h>
 #include <sys/wait.h>
 #include <sys/resource.h>
+#include <time.h>
 
 int __real_pthread_mutex_lock(pthread_mutex_t*);
 int __real_pthread_mutex_unlock(pthread_mutex_t*);
@@ -54,7 +58,7 @@ typedef struct {
   int state, op, obj, granted, aux;
   int waiting;                       /* 0 no, 1 in cond_wait, 2 signalled */
   pthread_cond_t cv;
-  pthread_t th;
+  pthread_t th; int th_set;
 } h_thread;
 
 static h_thread h_t[MAXT];
@@ -200,6 +204,7 @@ static void* h_tramp_thread(void* p) {
   h_start s = *(h_start*) p;
   free(p);
   h_me = s.id;
+  h_t[s.id].th = pthread_self(); h_t[s.id].th_set = 1;
   s.fn(s.arg);
   if (h_me >= 0) h_end();
   return NULL;
@@ -226,14 +231,37 @@ static int h_enabled(h_thread* t, int aux) {
   }
 }
 
+static int h_spin = -1;             /* thread found spinning */
+static double cpu_of(pthread_t th) {
+  clockid_t cid; struct timespec ts;
+  if (pthread_getcpuclockid(th, &cid) != 0 || clock_gettime(cid, &ts) != 0) return 0;
+  return ts.tv_sec + ts.tv_nsec * 1e-9;
+}
+/* wait until nobody runs; a thread that burns more than a second of CPU inside one step is
+ * spinning (a legitimate step is a few microseconds of libuv code plus one system call) */
 static void h_settle(void) {
   int i;
+  double start[MAXT];
+  for (i = 0; i < h_nt; i++) start[i] = -1;
   __real_pthread_mutex_lock(&h_G);
   for (;;) {
     int busy = 0;
+    struct timespec dl;
     for (i = 0; i < h_nt; i++) if (h_t[i].state == T_RUNNING) busy = 1;
     if (!busy) break;
-    __real_pthread_cond_wait(&h_ctl, &h_G);
+    clock_gettime(CLOCK_REALTIME, &dl);
+    dl.tv_nsec += 50 * 1000 * 1000;
+    if (dl.tv_nsec >= 1000000000) { dl.tv_sec++; dl.tv_nsec -= 1000000000; }
+    if (pthread_cond_timedwait(&h_ctl, &h_G, &dl) == ETIMEDOUT) {
+      for (i = 0; i < h_nt; i++) {
+        double c;
+        if (h_t[i].state != T_RUNNING || !h_t[i].th_set) continue;
+        c = cpu_of(h_t[i].th);
+        if (start[i] < 0) start[i] = c;
+        else if (c - start[i] > 1.0) { h_spin = i; break; }
+      }
+      if (h_spin >= 0) break;
+    }
   }
   __real_pthread_mutex_unlock(&h_G);
 }
@@ -340,6 +368,8 @@ static void exec_ops(int l, const char* ops, const int* args, int n, int in_cb) 
       h_slot* s = (r >= 0 && r < h_nreq) ? h_byid[r] : NULL;
       if (s == NULL || s->loop != l || s->ndone > 0) { h_park(OP_NOP, 0); ev("N"); }
       else { rc = uv_cancel(&s->u.req); ev("c%d,%d", r, rc); }
+    } else if (o == 'T') {
+      h_park(OP_NOP, 0); ev("T"); uv_stop(loop);
     } else if (o == 'R') {
       if (in_cb) { h_park(OP_NOP, 0); ev("N"); }
       else { h_park(OP_POLL, 0); ev("P"); rc = uv_run(loop, UV_RUN_NOWAIT); ev("a%d", rc != 0); }
@@ -351,14 +381,16 @@ static void exec_ops(int l, const char* ops, const int* args, int n, int in_cb) 
 static void* loop_thread(void* arg) {
   int l = (int) (long) arg;
   h_me = l;
+  h_t[l].th_set = 1;
   h_park(OP_NOP, -1);                /* start barrier: not a step of the model */
   exec_ops(l, h_prog[l], h_parg[l], h_plen[l], 0);
-  if (uv_loop_alive(&h_loop[l])) {
+  while (uv_loop_alive(&h_loop[l])) {
     int rc;
     tl_drain = 1; tl_drain_first = 1;
     rc = uv_run(&h_loop[l], UV_RUN_DEFAULT);
     tl_drain = 0;
-    ev("a%d", rc != 0);
+    /* a call that returned without polling (uv_stop was pending) is not an iteration */
+    if (!tl_drain_first) ev("a%d", rc != 0);
   }
   h_end();
   return NULL;
@@ -430,13 +462,18 @@ static void run_case(char* line) {
   h_settle();
   /* release the loop threads from the start barrier up to their first real blocking point */
   for (i = 0; i < h_nloops; i++) h_step(i, 0);
+  if (h_spin >= 0) { printf("%d:!spin v3\n", h_spin); fflush(stdout); _exit(0); }
   p = f[3];
   for (;;) {
     int t, a, k;
     if (sscanf(p, " %d,%d%n", &t, &a, &k) != 2) break;
     p += k;
     if (!h_step(t, a)) printf("%d:- ", t);
-    else printf("%d:%s ", t, h_log);
+    else if (h_spin >= 0) {
+      printf("%d:%s%s!spin v3\n", t, h_log, h_len ? "." : "");
+      fflush(stdout);
+      _exit(0);
+    } else printf("%d:%s ", t, h_log);
   }
   {
     int done = 1, en = 0;
